@@ -10,7 +10,10 @@
 #         | ('label', l, stmt) | ('try', [stmt], [stmt]|None, [stmt]|None)
 #         | ('gstmt', [stmt])                         `({get a() {...}});`  an object literal with a getter, as a statement
 #         | ('forhead', is_getter, [stmt], stmt)      `for (const [k = FN] of o) stmt`, FN = `() => {...}` / `{get a() {...}}`
-#   E := ('id', n) | ('call', n) | ('lit',) | ('this',)          C := ('T',) | ('F',) | ('O', E)
+#   E := ('id', n) | ('call', n) | ('lit',) | ('this',)
+#   C := ('T',) | ('F',) | ('O', E) | ('S', E, bool)  `(E, true)` / `E || true` / `(E, false)` / `E && false`
+#      | ('U',)  always truthy, swc's cast_to_bool says Unknown (`` `a` ``, `!!!!1`)
+#      | ('G', text)  only in the fixed dependency corpus: NaN-valued arithmetic (falsy; swc says Known(true))
 #   program := (wrapper, [stmt])   wrapper in 'fn' | 'getter' | 'switch'
 # The printer produces the JS source, and - in the same pass - the token line for the extracted Coq model
 # (see ocaml/cf/driver.ml for the format), with the byte offsets swc gives to each node.
@@ -19,15 +22,23 @@ sys.path.insert(0, os.path.dirname(os.path.abspath(__file__)))
 from lib import *
 
 RULES = ["no-unreachable", "getter-return", "no-fallthrough"]
-# repairs switched on in the model = the code as it is now: fix commits A (1), B (2), D (8) and E (16); C (4) is a known finding
-DEFAULT_MASK = 27
+# repairs switched on in the model = the code as it is now: fix commits A (1), B (2), D (8), E (16) and F (32); C (4) is a known finding
+DEFAULT_MASK = 59
 T_CALL = 999   # `v999();` - the statement of the second case of the switch wrapper
 
 # ----------------------------------------------------------------------------
 # printer
 # ----------------------------------------------------------------------------
-TRUE_SP = ["true", "1", "!0", "true"]
-FALSE_SP = ["false", "0", "!1"]
+# spellings for which swc's cast_to_bool answers Known(true) and that are visited like a literal (pure, no map entries)
+TRUE_SP = ["true", "1", "!0", "true", '"a"', "!null", "((1))", "[]", "1n", "/a/", "({})", "!!1", "!!!0", "1 - 2", "1 / 0", '"" + "a"',
+           "!undefined", "true", "1"]
+# always falsy (Known(false) or Unknown - mod.rs only asks for Known(true))
+FALSE_SP = ["false", "0", "!1", "null", "void 0", '""', "``", "!!!!0", "0n", "false"]
+# always truthy, but cast_to_bool = Unknown (template literal, nesting deeper than swc's remaining_depth, conditional)
+UNK_TRUE_SP = ["`a`", "!!!!1", "1 ? 1 : 1", "`a${1}`"]
+# (before E, after E): evaluates E, value is the constant
+SEQ_TRUE_SP = [("(", ", true)"), ("", " || true"), ("(", ", 1)"), ("", " || 1")]
+SEQ_FALSE_SP = [("(", ", false)"), ("", " && false"), ("(", ", 0)")]
 LIT_SP = ["1", "0", "null", "2.5"]
 # heads of a for-in/of with a default value FN: (text before FN, text after FN up to the `in`/`of` keyword)
 HEAD_SP = [("const [k = ", "]"), ("const {k = ", "}"), ("var [k = ", "]"), ("let [, k = ", "]"), ("[k = ", "]"), ("const {a: [k = ", "]}")]
@@ -75,6 +86,14 @@ class Printer:
             self.t(0); self.w(self.pick(TRUE_SP))
         elif c[0] == 'F':
             self.t(1); self.w(self.pick(FALSE_SP))
+        elif c[0] == 'S':
+            pre, post = self.pick(SEQ_TRUE_SP if c[2] else SEQ_FALSE_SP)
+            self.t(3); self.w(pre); self.expr(c[1]); self.w(post); self.t(1 if c[2] else 0)
+        elif c[0] == 'U':
+            self.t(4); self.w(self.pick(UNK_TRUE_SP))
+        elif c[0] == 'G':
+            # dependency corpus only: the value is NaN (falsy) - for the semantics this is CFalse
+            self.t(1); self.w(c[1])
         else:
             self.t(2); self.expr(c[1])
 
@@ -265,7 +284,10 @@ def coq_term(prog):
 
     def cond():
         t = nx()
-        return "CTrue" if t == 0 else "CFalse" if t == 1 else "(COpaque %s)" % expr()
+        if t == 3:
+            e = expr()
+            return "(CSeq %s %s)" % (e, "true" if nx() else "false")
+        return "CTrue" if t == 0 else "CFalse" if t == 1 else "CUnkTrue" if t == 4 else "(COpaque %s)" % expr()
 
     def num():
         return str(nx())
@@ -403,11 +425,15 @@ class Gen:
 
     def cond(self):
         x = self.r.random()
-        if x < 0.30:
+        if x < 0.27:
             return ('T',)
-        if x < 0.40:
+        if x < 0.36:
             return ('F',)
-        if x < 0.75:
+        if x < 0.46:
+            return ('S', self.expr(), self.r.random() < 0.75)
+        if x < 0.50:
+            return ('U',)
+        if x < 0.78:
             return ('O', ('id', self.r.randrange(1, 6)))
         return ('O', ('call', self.r.randrange(1, 6)))
 
@@ -539,7 +565,7 @@ def gen_program(rng):
 # exhaustive enumeration (seed independent)
 # ----------------------------------------------------------------------------
 ENUM_ATOMS = [('expr', ('call', 1)), ('expr', ('id', 1)), ('ret', ('lit',)), ('throw', ('lit',)), ('throw', ('id', 1))]
-ENUM_CONDS = [('T',), ('O', ('id', 2))]
+ENUM_CONDS = [('T',), ('O', ('id', 2)), ('S', ('call', 1), True)]
 
 
 def enum_stmt(n, brk, cont, labels, loop_labels, mine=()):
@@ -729,6 +755,37 @@ def impl_violation_pred(kind, cls_mask=None):
     return pred
 
 
+# ----------------------------------------------------------------------------
+# dependency finding G: swc's `cast_to_bool` answers Known(true) for NaN-valued arithmetic (`"a" - 1`: cast_to_number
+# gives NaN and 1, "different numbers" => true) and for `!NaN` whatever `NaN` is bound to; mod.rs trusts it.
+# A fixed corpus (not part of the model = implementation comparison: the model's `T` means "Known(true) and true").
+# ----------------------------------------------------------------------------
+DEP_CLASS_G = "dependency-swc-cast_to_bool:nan-arithmetic"
+DEP_CORPUS_G = [
+    ('fn', [('while', ('G', '"a" - 1'), ('block', [])), ('expr', ('call', 1))]),
+    ('fn', [('dowhile', ('block', []), ('G', 'undefined - 1')), ('expr', ('call', 1))]),
+    ('fn', [('for', ('G', 'NaN - NaN'), ('block', [])), ('expr', ('call', 1))]),
+]
+# (source, offset of a statement that is reachable: with f(1) the loop is skipped)
+DEP_RAW_G = [("function f(NaN) { while (!NaN) { } v1(); }", 35)]
+
+
+def dependency_findings():
+    """-> [{src, offset, kind}]: C10 violations of the implementation on the corpus (semantic facts from the model's
+       semantics with the NaN-valued test as the constant false)"""
+    printed = [print_program(p) for p in DEP_CORPUS_G]
+    sems = model_sem([x[1] for x in printed])
+    lints = impl_rules([x[0] for x in printed] + [r[0] for r in DEP_RAW_G])
+    items = []
+    for p, pr, sm, l in zip(DEP_CORPUS_G, printed, sems, lints):
+        for kind, off in impl_violations_of(p, l, sm):
+            items.append({"src": pr[0], "offset": off, "kind": kind})
+    for (src, off), l in zip(DEP_RAW_G, lints[len(printed):]):
+        if l and "ok" in l and any(d["code"] == "no-unreachable" and d["start"] == off for d in l["ok"]):
+            items.append({"src": src, "offset": off, "kind": "c10"})
+    return items
+
+
 def has_violation(o):
     return bool(o["c10"] or o["getter"] or o["cases"] or o.get("getters"))
 
@@ -830,15 +887,26 @@ def feature_D(body):
     return False
 
 
+def feature_F(body):
+    """a while / do-while whose test is known-true and can throw"""
+    for t in body:
+        for s in walk(t):
+            if s[0] == 'while' and s[1][0] == 'S' and s[1][2] and s[1][1][0] == 'call':
+                return True
+            if s[0] == 'dowhile' and s[2][0] == 'S' and s[2][2] and s[2][1][0] == 'call':
+                return True
+    return False
+
+
 def feature_E(body):
     """a for-in/of whose head contains a function-like"""
     return any(s[0] == 'forhead' for t in body for s in walk(t))
 
 
-FEATURES = {"A": feature_A, "B": feature_B, "C": feature_C, "D": feature_D, "E": feature_E}
-MASKS = {"A": 1, "B": 2, "C": 4, "D": 8, "E": 16}
-ALL_FIXES = 31
-CLASSES = "ABCDE"
+FEATURES = {"A": feature_A, "B": feature_B, "C": feature_C, "D": feature_D, "E": feature_E, "F": feature_F}
+MASKS = {"A": 1, "B": 2, "C": 4, "D": 8, "E": 16, "F": 32}
+ALL_FIXES = 63
+CLASSES = "ABCDEF"
 
 
 def model_body(prog):
@@ -1150,7 +1218,7 @@ def compare_all(tier="quick", seed=1, mask=DEFAULT_MASK, chunk=20000, shrink_lim
     res = {"tier": tier, "seed": seed, "mask": mask, "programs": 0, "random": 0, "exhaustive": 0,
            "sizes": {}, "constructs": {}, "wrappers": {}, "mismatches": [], "n_mismatches": 0,
            "violating_programs": 0, "violations": {"c10": 0, "c11_getter": 0, "c11_case": 0},
-           "classes": {"A": 0, "B": 0, "C": 0, "D": 0, "unexplained": 0}, "unexplained": [], "examples": {},
+           "classes": {"A": 0, "B": 0, "C": 0, "D": 0, "E": 0, "F": 0, "unexplained": 0}, "unexplained": [], "examples": {},
            "unexplained_after_repair": [], "impl_level_c10": 0, "info_entries": 0, "diags": 0, "stats": {},
            "impl_violations": {"c10": [], "getter": [], "cases": []}}
     impl_items = []      # (prog, src, kind, offset, explained_by_model)
@@ -1192,7 +1260,7 @@ def compare_all(tier="quick", seed=1, mask=DEFAULT_MASK, chunk=20000, shrink_lim
             o, of = r["oracle"][i], r["oracle_fixed"][i]
             if has_violation(of):
                 res["unexplained_after_repair"].append({"src": r["srcs"][i], "oracle": {k: of[k] for k in ("c10", "getter", "cases")}})
-            if has_violation(o) and r["sem"][i]["fnsafe"] and mask & 27 == 27:
+            if has_violation(o) and r["sem"][i]["fnsafe"] and mask & 59 == 59:
                 # contradicts the theorems C10/C11 *_sound_current (side condition fn_stmt_safe)
                 res["unexplained"].append({"src": r["srcs"][i], "why": "violation on a program that satisfies fn_stmt_safe",
                                            "oracle": {k: o[k] for k in ("c10", "getter", "cases")}})
